@@ -4,6 +4,7 @@ pub mod val;
 pub mod wrappers;
 pub mod observe;
 pub mod tracex;
+pub mod tovalue;
 pub mod pure;
 pub mod pure2;
 
